@@ -159,7 +159,7 @@ func c13EmitC13Shape(t *tr) {
 
 	// 4. renewDynamicCertificate: the serve-current test inside `if ok {` and the background test
 	{
-		serve, bg := false, false
+		serve, bg, bgCtx := false, false, false
 		ast.Inspect(t.funcs[fns[2]].Body, func(n ast.Node) bool {
 			is, ok := n.(*ast.IfStmt)
 			if !ok {
@@ -188,11 +188,22 @@ func c13EmitC13Shape(t *tr) {
 				}
 				if hasGo && hasRet {
 					bg = true
+					// its context: context.WithTimeout(context.Background(), ...), not derived from the handshake's
+					for _, st := range is.Body.List {
+						if as, ok := st.(*ast.AssignStmt); ok && len(as.Rhs) == 1 {
+							if c, ok := as.Rhs[0].(*ast.CallExpr); ok && exprStr(c.Fun) == "context.WithTimeout" && len(c.Args) == 2 {
+								if c0, ok := c.Args[0].(*ast.CallExpr); ok && exprStr(c0.Fun) == "context.Background" && len(c0.Args) == 0 {
+									bgCtx = true
+								}
+							}
+						}
+					}
 				}
 			}
 			return true
 		})
 		t.p("Definition hs_serve_current_iff_unexpired_unrevoked : bool := %v. (* if timeLeft > 0 && !revoked { ... return currentCert, nil } *)\n", serve)
 		t.p("Definition hs_background_iff_unexpired : bool := %v. (* if timeLeft > 0 { go renewAndReload(...); return currentCert, nil } *)\n", bg)
+		t.p("Definition hs_background_ctx_is_background : bool := %v. (* ... ctx, cancel := context.WithTimeout(context.Background(), 5*time.Minute) *)\n", bgCtx)
 	}
 }
